@@ -193,7 +193,7 @@ func (s *Spec) expect(cur *jsonx.Node, key string, r Ref) *jsonx.Node {
 		}
 		Expect(o, s.Children[:n], key+"_", r)
 		if s.ErrAt >= 0 {
-			cur.Add(key+"Error", jsonx.S(ErrMsg))
+			cur.Add(key+"Error", jsonx.Containing(ErrMsg))
 		}
 	case KInline:
 		n := len(s.Children)
@@ -202,7 +202,7 @@ func (s *Spec) expect(cur *jsonx.Node, key string, r Ref) *jsonx.Node {
 		}
 		cur = Expect(cur, s.Children[:n], "in_", r)
 		if s.ErrAt >= 0 {
-			cur.Add("Error", jsonx.S(ErrMsg))
+			cur.Add("Error", jsonx.Containing(ErrMsg))
 		}
 	case KDict:
 		o := jsonx.O()
@@ -212,7 +212,9 @@ func (s *Spec) expect(cur *jsonx.Node, key string, r Ref) *jsonx.Node {
 		a, failed := expectArr(s.Elems, s.ErrAt, r)
 		cur.Add(key, a)
 		if failed != "" {
-			cur.Add(key+"Error", jsonx.S(failed))
+			// the <key>Error text must describe the failure: contain the
+			// marshaler's / encoder's message (the exact wording is zap's)
+			cur.Add(key+"Error", jsonx.Containing(failed))
 		}
 	default:
 		for _, m := range s.Want(key, r) {
@@ -223,7 +225,7 @@ func (s *Spec) expect(cur *jsonx.Node, key string, r Ref) *jsonx.Node {
 }
 
 // ReflectErrChan is the error encoding/json reports for a channel value.
-const ReflectErrChan = "json: unsupported type: chan int"
+const ReflectErrChan = "chan int"
 
 func expectArr(elems []*Elem, errAt int, r Ref) (*jsonx.Node, string) {
 	a := jsonx.A()
@@ -365,6 +367,8 @@ func TimeNode(t time.Time, r Ref) *jsonx.Node {
 		return jsonx.S(t.Format(time.RFC3339Nano))
 	case "layout":
 		return jsonx.S(t.Format(HostileLayout))
+	case "plainlayout":
+		return jsonx.S(t.Format(PlainLayout))
 	}
 	return I64(t.UnixNano())
 }
@@ -445,7 +449,7 @@ func Leaves(full bool) []*Spec {
 		fixed("int64:max", func(k string) zapcore.Field { return zap.Int64(k, math.MaxInt64) }, I64(math.MaxInt64)),
 		fixed("string:hostile", func(k string) zapcore.Field { return zap.String(k, Hostile) }, jsonx.S(FixUTF8(Hostile))),
 		leaf("reflect:chan(unencodable)", func(k string) zapcore.Field { return zap.Reflect(k, make(chan int)) }, func(k string, r Ref) []jsonx.Member {
-			return one(k+"Error", jsonx.S(ReflectErrChan))
+			return one(k+"Error", jsonx.Containing("chan int"))
 		}),
 		leaf("error:group", func(k string) zapcore.Field {
 			return zap.NamedError(k, multierr.Combine(errors.New("e\"1"), verboseErr{"e2"}))
@@ -533,7 +537,7 @@ func Leaves(full bool) []*Spec {
 	// stringers
 	add(fixed("stringer:ok", func(k string) zapcore.Field { return zap.Stringer(k, okStringer{Hostile}) }, jsonx.S(FixUTF8(Hostile))))
 	ps := leaf("stringer:panics", func(k string) zapcore.Field { return zap.Stringer(k, panicStringer{}) }, func(k string, r Ref) []jsonx.Member {
-		return one(k+"Error", jsonx.S("PANIC=stringer \"boom\"\n"))
+		return one(k+"Error", jsonx.Containing("stringer \"boom\"\n"))
 	})
 	ps.Fault = true
 	add(ps)
@@ -548,7 +552,7 @@ func Leaves(full bool) []*Spec {
 		return []jsonx.Member{{Key: k, Val: jsonx.S("v")}, {Key: k + "Verbose", Val: jsonx.S("v\n\tat frame \"x\"")}}
 	}))
 	pe := leaf("error:Error()-panics", func(k string) zapcore.Field { return zap.NamedError(k, panicErr{}) }, func(k string, r Ref) []jsonx.Member {
-		return one(k+"Error", jsonx.S("PANIC=error \"boom\""))
+		return one(k+"Error", jsonx.Containing("error \"boom\""))
 	})
 	pe.Fault = true
 	add(pe)
@@ -557,7 +561,7 @@ func Leaves(full bool) []*Spec {
 	npe.Fault = true
 	add(npe)
 	gp := leaf("error:group-Errors()-panics", func(k string) zapcore.Field { return zap.NamedError(k, groupPanics{}) }, func(k string, r Ref) []jsonx.Member {
-		return []jsonx.Member{{Key: k, Val: jsonx.S("group")}, {Key: k + "Error", Val: jsonx.S("PANIC=errors boom")}}
+		return []jsonx.Member{{Key: k, Val: jsonx.S("group")}, {Key: k + "Error", Val: jsonx.Containing("errors boom")}}
 	})
 	gp.Fault = true
 	add(gp)
